@@ -93,3 +93,4 @@ m2task('HandshakeHelpers.verify_binder/binding', ('C04', 'C05', 'C13'), HH + 've
        doc='a PSK binder verifies only if the full digest comparison of the received binder at `position` with the binder '
            'computed (given secret, hash) over transcript-copy || truncated ClientHello succeeded; otherwise illegal_parameter')
 REG.note('C04', 'not_built', 'ClientHello.psk_truncate cuts exactly the binders list (M1 over the Writer contracts); update_binders')
+REG.xchecks.append({'prop': 'C04', 'module': 'specs.binders', 'name': 'psk_truncate', 'function': 'tlslite/messages.py:ClientHello.psk_truncate'})
